@@ -47,7 +47,7 @@ Section Codecs.
     rm_type m = type_video ->
     q_sps s <> None ->
     (q_vpacker s = Some (c, seq) \/ (q_vpacker s = None /\ seq = 0 /\ c = if (q_vpt s =? pt_avc)%Z then Avc else Hevc)) ->
-    seq < 65536 ->
+    seq < 65536 -> enhanced_too_short m = false ->
     iterate_nalu_avcc (if (video_codec_id m =? codec_id_hevc) && is_enhanced_hevc_nalu m
                        then skipn (enhanced_nalu_index m) (rm_payload m) else skipn 5 (rm_payload m)) = (nals, None) ->
     Forall (fun u => is_aud c u = false -> rtp_unit_ok c u) nals ->
@@ -59,7 +59,7 @@ Section Codecs.
       /\ Forall (fun p => rp_ts p = (rm_ts m * 90000 / 1000) mod 4294967296 /\ rp_pt p = u8z (q_vpt s)) pk
       /\ q_vpacker s' = Some (c, if lenN pk =? 0 then seq else seq_add seq (lenN pk)).
   Proof.
-    intros Hty Hsps Hpk Hseq Hsplit Hok. unfold remux, RemuxRtmp2Rtp.remux.
+    intros Hty Hsps Hpk Hseq Hshort Hsplit Hok. unfold remux, RemuxRtmp2Rtp.remux.
     rewrite Hty. change (type_video =? type_audio) with false. change (type_video =? type_video) with true. cbv iota.
     assert (Hg : exists s1, get_video_packer s = (s1, Some (c, seq)) /\ q_vpt s1 = q_vpt s
                  /\ forall p, q_vpacker (set_vpacker s1 p) = p).
@@ -67,7 +67,7 @@ Section Codecs.
       destruct Hpk as [Hpk|(Hpk & -> & ->)]; rewrite Hpk.
       - exists s. repeat split.
       - eexists. repeat split. }
-    destruct Hg as (s1 & Hg & Hvpt & Hset). rewrite Hg.
+    destruct Hg as (s1 & Hg & Hvpt & Hset). rewrite Hg, Hshort.
     match goal with |- context [iterate_nalu_avcc ?b] =>
       replace (iterate_nalu_avcc b) with (nals, @None N) by (symmetry; exact Hsplit) end.
     assert (Hh : fu_hdr_size c < rtp_max_payload) by (destruct c; reflexivity).
@@ -169,6 +169,7 @@ Section Codecs2.
     - destruct (rm_type m =? type_video); [|split; [constructor|reflexivity]].
       pose proof (get_video_packer_done s) as Hd.
       destruct (get_video_packer s) as [s1 [[cc sq]|]]; cbn [fst] in Hd; [|split; [constructor|exact Hd]].
+      destruct (enhanced_too_short m); [split; [constructor|exact Hd]|].
       destruct (rtp_pack _ _ _ _ _ _) as [pk sq']. cbn [fst snd set_vpacker q_done]. split; [|exact Hd].
       apply Forall_map. apply Forall_forall. intros; exact I.
   Qed.
